@@ -11,7 +11,7 @@ from vlib import Result, enc_list, f2b, Toks, close
 
 PROP = 'C07'
 META = {
-    'level_text': 'Lean 4 theorems for every grid size, distribution, growth field, nucleation term and step (budget by telescoping, one-sided ends, upwind adjacent-class exchange, unique nucleation class, face-wise limiter and class-wise total-outflow limiter, UNCONDITIONAL non-negativity of the corrected Euler update, step-limit formula, non-negativity under the limit; the dissolution index is a function of the stored distribution and grid and invariant under Normalize, GrainGrowthModel.postProcess/reset store the index of the grid they leave, so getDt proposes the limit for the CURRENT grid; witnesses that a re-binning changes the index and that a stale index changes the step) about an executable model of getdXdtEuler/correctdXdtEuler/getDTEuler/getDissolutionIndex and of the order of operations of GrainGrowthModel.postProcess; the model is tied to PopulationBalance.py and GrainGrowth.py by differential correspondence on every run (random PBM cases and every call of every iteration of real GrainGrowthModel runs, explicit Euler and RK4, adaptive grids that extend and re-bin), and the property predicate is also evaluated on the implementation outputs against an independent scalar reference.',
+    'level_text': 'Lean 4 theorems for every grid size, distribution, growth field, nucleation term and step (budget by telescoping, one-sided ends, upwind adjacent-class exchange, unique nucleation class = the class [b_k, b_k+1) found by a scan, for every radius incl. radii exactly on a boundary (first boundary -> class 0, never the last class; witness for the searchsorted-left variant), the same class in the corrected rate, face-wise limiter and class-wise total-outflow limiter, UNCONDITIONAL non-negativity of the corrected Euler update, step-limit formula, non-negativity under the limit; the dissolution index is a function of the stored distribution and grid and invariant under Normalize, GrainGrowthModel.postProcess/reset store the index of the grid they leave, so getDt proposes the limit for the CURRENT grid; witnesses that a re-binning changes the index and that a stale index changes the step) about an executable model of getdXdtEuler/correctdXdtEuler/getDTEuler/getDissolutionIndex and of the order of operations of GrainGrowthModel.postProcess; the model is tied to PopulationBalance.py and GrainGrowth.py by differential correspondence on every run (random PBM cases and every call of every iteration of real GrainGrowthModel runs, explicit Euler and RK4, adaptive grids that extend and re-bin), and the property predicate is also evaluated on the implementation outputs against an independent scalar reference.',
     'level_note': 'Trusted: Lean kernel + Mathlib, axioms propext/Classical.choice/Quot.sound; the hand model KawinV.PBM equals the NumPy code only as far as this run compared them (thousands of structured cases); exact-field arithmetic instead of IEEE doubles; NaN/inf growth rates outside the statement. Grain-growth part: the grid adjustment inside postProcess is taken as observed (its model is C08), the model ties the ORDER update -> adjust -> index -> normalize; long default-bin runs (thousands of iterations) are in the thorough tier, their Lean replay is sub-sampled (every 10th iteration + all iterations around grid changes), the oracle sees every iteration.',
     'technique': 'Lean 4 proof over ordered fields + model/implementation differential correspondence',
     'design_ref': 'DESIGN.md section 6, C07',
@@ -87,10 +87,10 @@ def build(case):
     # grid operations as well (re-mesh, extension, backup/revert, restoring a recorded distribution), not only by construction
     h = case.get('hist', 'fresh')
     if cmin == 0.0 and h in ('recorded', 'recorded-load'):
-        # restoring a recorded distribution on a grid that starts at R = 0 loses the last class / raises on the unchanged
-        # code (_grabPSDfromIndex counts the NON-ZERO recorded boundaries; grid operation = C08, reported to the coordinator):
-        # not combined here, the zero-start grid is reached by re-meshing instead
-        h = case['hist'] = 'remesh'; case['hist_requested'] = 'recorded-skipped-on-grid-from-0'
+        # restoring a recorded distribution on a grid that starts at R = 0 lost the last class / raised (found by this
+        # generator; _grabPSDfromIndex counted the NON-ZERO recorded boundaries; repaired in /repo as a549be2, recorded under
+        # C08): the combination is generated and counted in the histogram; the transport oracles run on whatever grid the restore leaves
+        case['hist_requested'] = 'recorded-on-grid-from-0'
     if h == 'remesh':
         pbm.changeSizeClasses(cmin * r.uniform(0.5, 2), case['cmax'] * r.uniform(0.5, 3), max(1, int(n * r.uniform(0.4, 2.0))))
     elif h == 'add':
@@ -308,7 +308,9 @@ def nuc_oracle(res, desc, b, r, nucRate, exact, withg, without, fn):
 def corr(ctx, ncases=None, oracle_only=False, grain=True, sweep=True):
     res = Result()
     res.rule = ('random PBM grids (1-400 classes) x distribution kind x growth-field kind (incl. sign change of the growth rate inside a populated class) '
-                'x nucleation radius position x dt (multiples of the step limit, and multiples of the time in which a two-sided class empties: third pass active); '
+                'x nucleation radius position (inside, below, above, exactly ON / one ulp below / one ulp above the first, an interior and the last boundary, 0 on grids starting at R = 0, negative, +-inf; '
+                'a systematic sweep puts all of these on each of 12 (quick) / 120 (thorough) grids) x dt (multiples of the step limit, and multiples of the time in which a two-sided class empties: third pass active); '
+                'the nucleation class is evaluated on getdXdtEuler AND correctdXdtEuler (zero growth field: exact; with the growth field: difference with/without nucleation); '
                 'non-trivial = populated distribution and non-zero growth field; distinct = (kind tuple, n, seed)')
     N = ncases or ctx.n(1500, 40000)
     cases, impl, lines, extra = [], [], [], []
